@@ -44,6 +44,17 @@ EPOCH_DAY = _real_dt.date(2024, 5, 11).toordinal()
 
 class _Clock:
     ordinal: int = EPOCH_DAY
+    # fault "midnight-tick": the day advances by one after this many clock reads
+    # of the current process (None = the clock stands still during a process)
+    tick_after: Optional[int] = None
+    reads: int = 0
+
+    def read(self) -> int:
+        """One read of the clock by zorg: -> the ordinal it sees."""
+        self.reads += 1
+        if self.tick_after is not None and self.reads > self.tick_after:
+            return self.ordinal + 1
+        return self.ordinal
 
 
 CLOCK = _Clock()
@@ -70,13 +81,16 @@ class _InstMeta(type):
 class SimDate(_real_dt.date, metaclass=_InstMeta):
     @classmethod
     def today(cls) -> _real_dt.date:  # type: ignore[override]
-        return _real_dt.date.fromordinal(CLOCK.ordinal)
+        return _real_dt.date.fromordinal(CLOCK.read())
 
 
 class SimDateTime(_real_dt.datetime, metaclass=_InstMeta):
     @classmethod
     def now(cls, tz: Any = None) -> _real_dt.datetime:  # type: ignore[override]
-        d = _real_dt.date.fromordinal(CLOCK.ordinal)
+        o = CLOCK.read()
+        d = _real_dt.date.fromordinal(o)
+        if o != CLOCK.ordinal:
+            return _real_dt.datetime(d.year, d.month, d.day, 0, 0, 1, tzinfo=tz)
         return _real_dt.datetime(d.year, d.month, d.day, 12, 0, 0, tzinfo=tz)
 
     @classmethod
@@ -461,7 +475,7 @@ def _install_dirent_order(mode: str, seed: int) -> None:
 
 
 class Outcome:
-    __slots__ = ("status", "ret", "exc", "effects", "wall", "out_path")
+    __slots__ = ("status", "ret", "exc", "effects", "wall", "out_path", "clock_reads")
 
     def __init__(self) -> None:
         self.status = "?"  # ok | exc | crash | hang | died
@@ -470,6 +484,7 @@ class Outcome:
         self.effects: list[dict] = []
         self.wall = 0.0
         self.out_path = ""
+        self.clock_reads = 0
 
     def brief(self) -> dict:
         d: dict[str, Any] = {"status": self.status}
@@ -616,6 +631,7 @@ class Sim:
             out.status = res["status"]
             out.ret = res.get("ret")
             out.exc = res.get("exc")
+            out.clock_reads = res.get("clock_reads", 0)
         else:
             out.status = "died"
             out.exc = {"type": f"exit{code}", "msg": _tail(out_path), "where": []}
@@ -630,6 +646,8 @@ class Sim:
         os.chdir(self.root)
         os.environ["HOME"] = self.root
         set_day(self.day)
+        CLOCK.reads = 0
+        CLOCK.tick_after = fault["after"] if fault and fault.get("kind") == "midnight-tick" else None
         random.seed(self.seed)
         # the process id is a source of nondeterminism too (e.g. in temp-file names):
         # every simulated process gets a pid derived from its position in the history
@@ -649,7 +667,7 @@ class Sim:
             _tm.ZorgTemplateManager.tmp_dir = _types.SimpleNamespace(name=tdir)  # type: ignore[assignment]
         except ImportError:
             pass
-        tap = Tap(self.zdir, fx_fd, fault)
+        tap = Tap(self.zdir, fx_fd, fault if fault and fault.get("kind") != "midnight-tick" else None)
         _install_tap(tap)
         from . import ops
 
@@ -660,6 +678,7 @@ class Sim:
             res = {"status": "exc", "exc": _exc_info(e)}
         except SystemExit as e:
             res = {"status": "exc", "exc": {"type": "SystemExit", "msg": str(e.code), "where": []}}
+        res["clock_reads"] = CLOCK.reads
         sys.stdout.flush()
         sys.stderr.flush()
         data = json.dumps(res).encode()
